@@ -299,7 +299,8 @@ def expected_rnn(step, carry0, x_bm, lengths, nb, reverse, keep_order):
   out = seq.reverse_valid(ys, lengths, nb) if (reverse and keep_order) else ys
   leaves_t = [jax.tree_util.tree_leaves(h) for h in hist]
   treedef = jax.tree_util.tree_structure(hist[0])
-  sel = [seq.select_at_length([lt[k] for lt in leaves_t], lengths, nb) for k in range(len(leaves_t[0]))]
+  init_leaves = [np.asarray(a) for a in jax.tree_util.tree_leaves(carry0)]
+  sel = [seq.select_at_length([lt[k] for lt in leaves_t], lengths, nb, initial=init_leaves[k]) for k in range(len(leaves_t[0]))]
   return out, jax.tree_util.tree_unflatten(treedef, sel), (xr, ys, hist)
 
 
@@ -413,7 +414,8 @@ def run_rnn_case(ctx, api, cfg, rg, K):
     x = rg.uniform(-1, 1, bs + (T,) + feat).astype(np.float32)
     L = None
     if use_L:
-      L = rg.integers(1, T + 1, size=bs).astype(np.int32)
+      # lengths in [1, T]; every second draw also has empty sequences (length 0: no valid position at all)
+      L = rg.integers(0 if k % 2 == 1 else 1, T + 1, size=bs).astype(np.int32)
       if k == 0 and T >= 2 and np.all(L == T):  # make sure padding exists somewhere in the first draw
         L[(0,) * nb] = rg.integers(1, T)
     Lf = seq.lengths_or_full(L, bs, T)
